@@ -41,6 +41,8 @@ def unj(v, t):
 
 def err_lit(v) -> str:
     """errorcode / errorlevel literal in VTL"""
+    if isinstance(v, bool):
+        return "true" if v else "false"
     return f'"{v}"' if isinstance(v, str) else str(v)
 
 
@@ -52,13 +54,46 @@ def ec_val(v) -> str:
 def el_val(v) -> str:
     if v is None:
         return "VNull"
+    if isinstance(v, bool):
+        return f"(VBool {'true' if v else 'false'})"
     return f"(VInt {coq_z(v)})" if isinstance(v, int) else f"(VStr {coq_string(v)})"
 
 
 def gen_err(rng, named_pool):
+    """errorcode and errorlevel of a single `check`"""
     ec = rng.choice([None, None, rng.choice(named_pool), rng.choice(named_pool), rng.choice([5, 17])])
-    el = rng.choice([None, None, 1, 2, 7, rng.choice(["W", "high"])])
+    el = rng.choice([None, None, 1, 2, 7, rng.choice(["W", "high"]), rng.choice([True, False])])
     return ec, el
+
+
+LEVEL_STYLES = ["none", "int", "int", "int-gaps", "int-gaps", "bool", "bool-gaps", "str", "str-gaps", "mixed"]
+
+
+def level_plan(rng, n):
+    """errorlevels of the n rules of one ruleset: the component's type is decided over the whole ruleset (Validation.validate:
+    all Boolean -> Boolean; none or all Integer -> Number; otherwise String), so rulesets mix rules with and without a level"""
+    style = rng.choice(LEVEL_STYLES)
+    pool = {"none": [None], "int": [1, 2, 7], "bool": [True, False], "str": ["W", "high"], "mixed": [1, 7, "W", "high", None]}[style.split("-")[0]]
+    levels = [rng.choice(pool) for _ in range(n)]
+    if style.endswith("-gaps") and n > 1:
+        for i in rng.sample(range(n), rng.randrange(1, n)):
+            levels[i] = None
+    elif style.endswith("-gaps"):
+        levels[0] = rng.choice([None, levels[0]])
+    return style, levels
+
+
+def declared_level_type(levels, single=False):
+    """the type semantic analysis gives the errorlevel component"""
+    nn = [x for x in levels if x is not None]
+    if single:
+        x = levels[0]
+        return "Boolean" if isinstance(x, bool) else "Integer" if (x is None or isinstance(x, int)) else "String"
+    if nn and all(isinstance(x, bool) for x in nn):
+        return "Boolean"
+    if all(isinstance(x, int) for x in nn):
+        return "Number"
+    return "String"
 
 
 # ------------------------------------------------------------------ datasets
@@ -170,14 +205,16 @@ def gen_dp(rng) -> dict:
     nr = rng.choice([1, 2, 2, 3, 4, 5])
     named = rng.random() < 0.6
     rules = []
-    c = {"kind": "dp", "ds": dss, "sig": sig, "rules": rules, "out": rng.choice(["invalid", "all", "all_measures", None]), "rejected": 0}
+    lstyle, levels = level_plan(rng, nr)
+    c = {"kind": "dp", "ds": dss, "sig": sig, "rules": rules, "out": rng.choice(["invalid", "all", "all_measures", None]), "rejected": 0,
+         "levels": lstyle}
     st, _ = ds_engine({n: {"ids": [tuple(x) for x in d["ids"]], "ms": [tuple(x) for x in d["ms"]], "rows": []} for n, d in dss.items()})
     for i in range(nr):
         for _try in range(12):
             cg = G.CG(rng, cols, risky_div=False)
             then = cg.gen("Boolean", rng.choice([1, 1, 2]))
             when = cg.gen("Boolean", rng.choice([1, 1, 2])) if rng.random() < 0.55 else None
-            ec, el = gen_err(rng, [f"EC{i + 1}", "err"])
+            ec, el = gen_err(rng, [f"EC{i + 1}", "err"])[0], levels[i]
             rule = {"name": f"r{i + 1}" if named else None, "when": list(when) if when else None, "then": list(then), "ec": ec, "el": el,
                     "hist": cg.hist}
             # the engine's own semantic analysis decides whether the rule is a valid VTL rule (never guessed here)
@@ -228,15 +265,14 @@ def gen_hr(rng, kind) -> dict:
     nr = min(rng.choice([1, 2, 2, 3, 4, 5]), n_items - 1)
     lefts = order[:nr]
     rules = []
+    lstyle, levels = level_plan(rng, nr)
     for i, l in enumerate(lefts):
         cands = order[i + 1:]
         k = min(len(cands), rng.choice([1, 2, 2, 3]))
         rs = rng.sample(cands, k)
         right = [[rng.choice(["+", "+", "+", "-"]) if (j > 0 or rng.random() < 0.03) else "", it] for j, it in enumerate(rs)]
         cmp_op = "=" if (kind == "hier" and rng.random() < 0.85) or rng.random() < 0.5 else rng.choice([">", ">=", "<", "<="])
-        ec, el = gen_err(rng, [f"H{i + 1}", "imbalanced"])
-        if isinstance(el, str):
-            el = 3                  # error levels of hierarchical rules: numbers (engine: String levels with null literal in one column)
+        ec, el = gen_err(rng, [f"H{i + 1}", "imbalanced"])[0], levels[i]
         rules.append({"name": None, "left": l, "cmp": cmp_op, "right": right, "ec": ec, "el": el})
     if kind == "hier" and not any(r["cmp"] == "=" for r in rules):
         rules[0]["cmp"] = "="
@@ -268,7 +304,8 @@ def gen_hr(rng, kind) -> dict:
     comp_order = [n for n, _ in ids] + ["Me_1"]
     if rng.random() < 0.5:
         comp_order = ["Id_2"] + [n for n, _ in other] + ["Me_1"]
-    c = {"kind": kind, "ds": {"DS_1": d}, "order": comp_order, "rules": rules, "mode": rng.choice(MODES + ["non_null", "non_zero", None])}
+    c = {"kind": kind, "ds": {"DS_1": d}, "order": comp_order, "rules": rules, "mode": rng.choice(MODES + ["non_null", "non_zero", None]),
+         "levels": lstyle}
     if kind == "chk_h":
         c["out"] = rng.choice(["invalid", "all", "all_measures", None])
     else:
@@ -349,7 +386,7 @@ def coq_of(c, impl=True) -> str:
     if k == "check":
         inv = "true" if c["out"] == "invalid" else "false"
         imb = f"(Some {c['imb'][1]})" if c["imb"] else "None"
-        return f"run_check {'true' if impl else 'false'} {env_coq(c['ds'])} {c['op'][1]} {imb} {ec_val(c['ec'])} {el_val(c['el'])} {inv}"
+        return f"run_check false {env_coq(c['ds'])} {c['op'][1]} {imb} {ec_val(c['ec'])} {el_val(c['el'])} {inv}"
     if k == "dp":
         return dp_coq(c, c["out"])
     return hr_coq(c, c["out"], impl)
@@ -386,15 +423,37 @@ def lvl(v):
 
 
 def canon_e(v, name, typ):
+    """engine value; errorcode / errorlevel must be of the component's declared type (no text in a Number/Boolean column)"""
     if name in ("errorlevel", "errorcode"):
-        return lvl(v)
+        if v is None:
+            return None
+        if typ in ("Number", "Integer"):
+            if isinstance(v, bool):
+                return ("BOOL-IN-NUMERIC-COLUMN", v)
+            if isinstance(v, int):
+                return f"{v}/1"
+            if isinstance(v, str) and "/" in v:
+                f = Fraction(v)
+                return f"{f.numerator}/{f.denominator}"
+            return ("TEXT-IN-NUMERIC-COLUMN", v)
+        if typ == "Boolean":
+            return v if isinstance(v, bool) else ("NOT-BOOLEAN", v)
+        return v if isinstance(v, str) else ("NOT-TEXT", v)
     import exprk
     return exprk.canon_engine_val(v, typ)
 
 
 def canon_m(t, name, typ):
     if name in ("errorlevel", "errorcode"):
-        return lvl(V.from_val(t))
+        v = V.from_val(t)
+        if v is None:
+            return None
+        if typ in ("Number", "Integer"):
+            return f"{v}/1" if (isinstance(v, int) and not isinstance(v, bool)) else ("BADTYPE", v)
+        if typ == "Boolean":
+            return v if isinstance(v, bool) else ("BADTYPE", v)
+        # String component: the engine renders the literal as text
+        return ("true" if v else "false") if isinstance(v, bool) else str(v)
     import exprk
     return exprk.canon_model_val(t, typ)
 
@@ -525,6 +584,22 @@ def predicates(c, er) -> List[Tuple[str, str]]:
     if set(i_by) != false_keys:
         out.append((f"{tag}:invalid-differs-from-false-rows-of-all",
                     f"invalid keys {sorted(set(i_by) - false_keys, key=str)[:3]} not FALSE in all; FALSE in all but not invalid {sorted(false_keys - set(i_by), key=str)[:3]}"))
+    levels = [c["el"]] if k == "check" else [rl["el"] for rl in c["rules"]]
+    want = declared_level_type(levels, single=(k == "check"))
+    for dname in ("DS_invalid", "DS_all", "DS_all_measures"):
+        dd = D.get(dname)
+        if not dd:
+            continue
+        got = {x[0]: x[2] for x in dd["comps"]}.get("errorlevel")
+        py = {"Boolean": (bool,), "Number": (str, int), "Integer": (int,), "String": (str,)}[want]
+        i_el = [x[0] for x in dd["comps"]].index("errorlevel")
+        badv = [r[i_el] for r in dd["rows"] if r[i_el] is not None and
+                (not isinstance(r[i_el], py) or (want == "Number" and isinstance(r[i_el], str) and "/" not in r[i_el]) or
+                 (want in ("Number", "Integer") and isinstance(r[i_el], bool)))]
+        if got != want or badv:
+            out.append((f"{tag}:errorlevel-not-typed-as-declared",
+                        f"{dname}: errorlevel component is {got}, Validation.validate gives {want} for levels {levels}; ill-typed values {badv[:3]}"))
+            break
     for key, r in a_by.items():
         f = r["bool_var"] is False
         if (not f) and (r["errorcode"] is not None or r["errorlevel"] is not None):
@@ -613,6 +688,7 @@ def describe(c) -> Dict[str, str]:
         h["err"] = f"ec:{type(c['ec']).__name__} el:{type(c['el']).__name__}"
     else:
         h["nrules"] = f"rules:{len(c['rules'])}"
+        h["levels"] = "errorlevels:" + c.get("levels", "corpus")
         if k == "dp":
             h["when"] = f"when:{sum(1 for r in c['rules'] if r['when'])}/{len(c['rules'])}"
         else:
